@@ -1,0 +1,25 @@
+//go:build verif
+
+// Contracts for the deductive verifier in /verif (comment-only file; see /verif/DESIGN.md).
+package listoffsets
+
+//@ property C19
+
+// Merge re-labels every answer with the timestamp that was requested for its topic/partition IN THE SUB-REQUEST IT ANSWERS:
+// each sub-request has its own timestamp index (the maps built in the first loop are pairwise distinct and non-nil), so a
+// later sub-request for the same partition cannot overwrite the timestamp an earlier one recorded.
+//@ func (*Response).Merge
+//@   option noframe
+//@   modifies heap
+//@   assume the requests handed to Merge are the *Request values produced by Split, one per result, in the same order
+//@   unproved typeassert@"req := m.(*Request)" requests come from Request.Split
+//@   unproved typeassert@"requests[i].(*Request)" requests come from Request.Split
+//@   unproved typeassert@"response := m.(*Response)" protocol.Result returns the response of the sub-request
+//@   unproved index@"requests[i].(*Request)" one result per request (Split/Merge protocol)
+//@   unproved index@"timestamps[i][topicPartition{" one result per request (Split/Merge protocol)
+//@   loop 0 invariant -1 <= rangeindex#0 && rangeindex#0 < len(requests) && len(timestamps) == len(requests) && fresh(timestamps)
+//@   loop 0 invariant forall a :: 0 <= a && a <= rangeindex#0 ==> timestamps[a] != nil
+//@   loop 0 invariant forall a, b :: 0 <= a && a < b && b <= rangeindex#0 ==> timestamps[a] != timestamps[b]
+//@   loop 0 after forall a, b :: 0 <= a && a < b && b < len(timestamps) ==> timestamps[a] != timestamps[b]
+//@   loop 1 invariant ts != nil && fresh(ts) && (forall a :: 0 <= a && a < rangeindex#0 ==> timestamps[a] != ts)
+//@   loop 2 invariant ts != nil && fresh(ts) && (forall a :: 0 <= a && a < rangeindex#0 ==> timestamps[a] != ts)
